@@ -514,6 +514,9 @@ func (a *allowerContext) createEventAllowed(event PDU) error {
 	if err != nil {
 		return err
 	}
+	if sender == nil {
+		return errorf("userID not found for sender %q in room %q", event.SenderID(), event.RoomID().String())
+	}
 	verImpl, err := GetRoomVersion(event.Version())
 	if err != nil {
 		return nil
@@ -546,6 +549,9 @@ func (a *allowerContext) aliasEventAllowed(event PDU) error {
 	sender, err := a.userIDQuerier(a.roomID, event.SenderID())
 	if err != nil {
 		return err
+	}
+	if sender == nil {
+		return errorf("userID not found for sender %q in room %q", event.SenderID(), event.RoomID().String())
 	}
 
 	if event.RoomID().String() != a.create.roomID {
